@@ -3,15 +3,7 @@ CONSTANTS
   N = 2
   Vals = {0, 1, 2}
   K = 2
-  AtOn = TRUE
-  AsOn = TRUE
-  AtTol <- Tol1
-  AtG = 2
-  AtTgt <- TgtNone
-  AsTol <- Tol1
-  AsG = 1
-  InitAt <- NoMask
-  InitAs <- NoMask
+  Confs <- ConfsAll
   Design = "closed"
   MaskRule = "extend"
   Record = FALSE
